@@ -378,17 +378,21 @@ mzd_t *_mzd_ple_to_e(mzd_t *E, mzd_t const *A, rci_t r, rci_t c, int k, rci_t *o
 
 /* method of many people factorisation */
 rci_t _mzd_ple_russian(mzd_t *A, mzp_t *P, mzp_t *Q, int k) {
+  int work_on_copy = mzd_is_dangerous_window(A);
 #if __M4RI_HAVE_SSE2
-  if (__M4RI_ALIGNMENT(mzd_row(A, 0), 16)) {
-    /* a window starting at an odd word: the tables below are 16-byte aligned, the rows are not, and the
-     * vectorised row combination needs both in the same phase. Work on an aligned copy, as _mzd_ple does. */
+  work_on_copy |= (__M4RI_ALIGNMENT(mzd_row(A, 0), 16) != 0);
+#endif
+  if (work_on_copy) {
+    /* a window whose last word is shared with its parent: the multi-table row combination works on whole
+     * words and would change the parent's bits beyond the last column; a window starting at an odd word:
+     * the tables below are 16-byte aligned, the rows are not, and the vectorised row combination needs both
+     * in the same phase. Work on an aligned copy and copy back under the column mask, as _mzd_ple does. */
     mzd_t *Abar   = mzd_copy(NULL, A);
     rci_t const r = _mzd_ple_russian(Abar, P, Q, k);
     mzd_copy(A, Abar);
     mzd_free(Abar);
     return r;
   }
-#endif
   rci_t const nrows = A->nrows;
   rci_t const ncols = A->ncols;
   rci_t curr_row    = 0;
